@@ -9,7 +9,7 @@ package logout
 //@                      after Sess.Del("uid") && after Sess.Del("halfauth") && after Sess.Del("last_action") && after Cook.Del("rm"))
 //@
 //@ func (*Logout).Logout
-//@   property C10 C18 C17
+//@   property C10 C07 C18 C17
 //@   ensures[C17] no_secret_leak: secrets_clean
 //@   -- unless a before-logout handler took over (or failed), the response deletes every
 //@   -- non-whitelisted session value, the identity keys, and the remember cookie - before
@@ -17,7 +17,9 @@ package logout
 //@   ensures[C10] wipe: (emits Fire("Before", EventLogout, _, _, _) -> (?h, ?e) :: h == false && e == nil) ==>
 //@       (emits Sess.DelAll(?k) :: k == join(l.Config.Storage.SessionStateWhitelistKeys, ",") &&
 //@          after Sess.Del("uid") && after Sess.Del("halfauth") && after Sess.Del("last_action") && after Cook.Del("rm"))
-//@   ensures[C10] wipe_before_response:
+//@   -- (C07: a logout answer removes the remember cookie from the client, whoever the session
+//@   -- says is logged in)
+//@   ensures[C10,C07] wipe_before_response:
 //@       (each Redirect(_) => before Cook.Del("rm") && before Sess.Del("last_action") && before Sess.Del("halfauth") && before Sess.Del("uid") && before Sess.DelAll(_)) &&
 //@       (each Fire("After", _, _, _, _) => before Cook.Del("rm") && before Sess.Del("last_action") && before Sess.Del("halfauth") && before Sess.Del("uid") && before Sess.DelAll(_))
 //@   ensures[C10] no_put: !emits Sess.Put(_, _) && !emits Cook.Put(_, _)
